@@ -7,10 +7,17 @@ from nqlib import run_standard, VERIF, kv
 RULE = ("the real qmail-queue main() (ASan+UBSan build of the working tree) runs under qsim (in-memory POSIX subset, DESIGN.md 1.4) on: 12 message sizes "
         "straddling the 256/2048/8192-byte buffers x 12 envelope shapes (0..5 recipients, 1002/1003/1004-byte addresses, wrong record letters, "
         "missing terminator, EOF) x 3 read chunkings; EOF at every byte offset of a small envelope; every call index x {EIO, ENOSPC, short write, EINTR} "
-        "on three base cases; %s seeded random cases. Every system-call trace is replayed through the Lean acceptor QueueInject.accept (first rejected "
-        "event = disagreement); for every crash point (all calls; sampled in the middle of traces > 150 calls) x 5 crash resolutions (keep, lose un-fsynced, "
+        "on three well-formed base cases AND on 11 envelope shapes that fail by themselves (EOF before F / inside the sender / at a record boundary / "
+        "inside a recipient / after a record letter / terminator missing, wrong letters from the whole byte range, 1003..1005-byte addresses; one "
+        "well-formed control) x 3 variants (tiny message unchunked; 300 bytes with 30..49 recipients in reads of 100; reads of 1 byte) - so that the calls "
+        "made inside cleanup() (ftruncate, unlink intd, unlink mess) are faulted too; every second fault after every first fault on two well-formed "
+        "and 11 (thorough: 22) malformed inputs; %s seeded random cases with at most one fault + %s random inputs (half malformed) with a chain of 1..3 "
+        "faults. Every system-call trace is replayed through the Lean acceptor QueueInject.accept (first rejected "
+        "event = disagreement); for every crash point (all calls; sampled in the middle of traces > 150 calls; fault-sweep cases: from the last fault on, "
+        "the earlier ones being those of the run without that fault, which is a case of its own) x 5 crash resolutions (keep, lose un-fsynced, "
         "empty, garbage, half) the concrete queue entry is judged by the property oracle (todo visible => complete message+envelope, name=inode; exit status "
-        "vs visibility; leftover states; documented exit codes). non-trivial = distinct (message, envelope, fault)")
+        "vs visibility; leftover states in {nothing, pid, pid+mess, mess, mess+intd} whenever todo is absent; documented exit codes). "
+        "non-trivial = distinct (message, envelope, fault list)")
 
 
 def builder(s):
@@ -20,22 +27,37 @@ def builder(s):
 
 
 def mutate(dis, seed):
-    """neighbourhood of disagreeing cases: same message/envelope with every fault position and chunking"""
+    """neighbourhood of disagreeing cases: same message/envelope with every fault position and chunking, and - keeping the
+    faults of the disagreeing case - every further fault in the calls that follow them"""
     rnd = random.Random(seed)
     cases = set()
-    for d in dis[:20]:
+    seen = set()
+    for d in dis[:60]:
         f = kv(d)
         m, e = f.get("msg", "-"), f.get("env", "-")
-        for ck in (0, 1, 100):
-            cases.add("%d %s %s 0 0" % (ck, m, e))
-            for fc in range(1, 45):
+        if (m, e) not in seen and len(seen) < 20:
+            seen.add((m, e))
+            for ck in (0, 1, 100):
+                cases.add("%d %s %s 0 0" % (ck, m, e))
+                for fc in range(1, 45):
+                    for fe in (5, 28, -1, 4):
+                        cases.add("%d %s %s %d %d" % (ck, m, e, fc, fe))
+        try:
+            fl = [tuple(int(x) for x in t.split(":")) for t in f.get("fault", "0:0").split("+")]
+            ck = int(f.get("chunk", "0"))
+        except ValueError:
+            continue
+        fl = [t for t in fl if t[0] > 0]
+        if fl and len(fl) < 3 and len(cases) < 40000:
+            base = " ".join("%d %d" % t for t in fl)
+            for fc in range(fl[-1][0] + 1, fl[-1][0] + 13):
                 for fe in (5, 28, -1, 4):
-                    cases.add("%d %s %s %d %d" % (ck, m, e, fc, fe))
+                    cases.add("%d %s %s %s %d %d" % (ck, m, e, base, fc, fe))
     return sorted(cases)
 
 
 run_standard("C01", "Nq.Props.C01", "drv_c01", "harness/c01_queue.c", None, [],
-             "300", "4000", {"quick": RULE % 300, "thorough": RULE % 4000},
+             "300", "4000", {"quick": RULE % (300, 150), "thorough": RULE % (4000, 2000)},
              "QueueInject.accept (Nq/QueueInject.lean) vs the system-call traces of qmail-queue.c main()",
              builder=builder, mutate=mutate,
              assumptions=["OS semantics of DESIGN.md 1.4 as implemented by harness/sim.c: directory operations atomic and synchronous; file data "
